@@ -816,7 +816,7 @@ impl GState {
             Op::SeekCur(f, n) => {
                 if ok {
                     if let Some(gf) = self.files.iter_mut().find(|x| x.handle == *f) {
-                        gf.pos = (gf.pos as i64 + *n as i64) as usize;
+                        gf.pos = (gf.pos as i64 + *n as i64).max(0) as usize;
                     }
                 }
             }
@@ -824,7 +824,8 @@ impl GState {
                 if ok {
                     if let Some(gf) = self.files.iter_mut().find(|x| x.handle == *f) {
                         let len = self.trees[gf.vol].file_at(&gf.path).map(|x| x.data.len()).unwrap_or(0);
-                        gf.pos = len - *n as usize;
+                        // (an untracked file's reference length may lag: never underflow)
+                        gf.pos = len.saturating_sub(*n as usize);
                     }
                 }
             }
